@@ -153,14 +153,14 @@ theorem doUseToken_one (c c' : Ctx) (now : Int) (d : UseData) (fcd : Bool) (a : 
         obtain ⟨hq, -, -⟩ := passNow_eff _ c' now [] h
         simpa using hq.calls
 
-theorem checkSlot_fields (s : Station) (now : Int) :
+theorem stackCheckSlot_fields (s : Station) (now : Int) :
     (checkSlotExpired s now).1.lastTokenTime = s.lastTokenTime ∧ (checkSlotExpired s now).1.p = s.p ∧
     (checkSlotExpired s now).1.gap = s.gap ∧ (checkSlotExpired s now).1.endTokenHoldTime = s.endTokenHoldTime ∧
     (checkSlotExpired s now).1.nextApp = s.nextApp := by
   unfold checkSlotExpired getOrInsertLast
   cases s.lastBusActivity <;> exact ⟨rfl, rfl, rfl, rfl, rfl⟩
 
-theorem checkBA_fields (s : Station) (now : Int) (n : Nat) :
+theorem stackCheckBA_fields (s : Station) (now : Int) (n : Nat) :
     (checkBusActivity s now n).lastTokenTime = s.lastTokenTime ∧ (checkBusActivity s now n).p = s.p ∧
     (checkBusActivity s now n).gap = s.gap ∧ (checkBusActivity s now n).endTokenHoldTime = s.endTokenHoldTime ∧
     (checkBusActivity s now n).nextApp = s.nextApp ∧ (checkBusActivity s now n).st = s.st ∧
@@ -191,7 +191,7 @@ theorem doAwait_one (c c' : Ctx) (now : Int) (x : Nat) (d : UseData) (a : AppAns
         subst this; subst hc'
         simp only [upd, Res.ok.injEq] at ht
         subst ht
-        obtain ⟨f1, f2, f3, f4, f5⟩ := checkSlot_fields c.s now
+        obtain ⟨f1, f2, f3, f4, f5⟩ := stackCheckSlot_fields c.s now
         have he : holdEnd { (checkSlotExpired c.s now).1 with st := FState.useToken d true } d = holdEnd c.s d :=
           holdEnd_congr d f1 f2 f3 f4
         rcases doUseToken_one _ c' now d true a (by exact ha) rfl h with hc | hc
@@ -245,7 +245,7 @@ theorem poll_shape (s : Station) (a : AppAnswer) (now : Int) (phy : Bool) (rx : 
     rcases ite_inv h with ⟨_, h⟩ | ⟨_, h⟩
     · cases h; exact .inl rfl
     · simp only [upd] at h
-      obtain ⟨g1, g2, g3, g4, g5, g6, g7⟩ := checkBA_fields s.wake now rx.length
+      obtain ⟨g1, g2, g3, g4, g5, g6, g7⟩ := stackCheckBA_fields s.wake now rx.length
       have hon0 : (checkBusActivity s.wake now rx.length).online = true := by
         rw [g7]
         rcases wake_cases s with hw | ⟨hw, -⟩ <;> rw [hw] <;> simp [hon]
